@@ -113,9 +113,20 @@ func qEncodeLatin1(s []byte) string {
 
 // GenSubject returns a raw Subject header value of the given shape whose length is <= 128.
 func GenSubject(r *rand.Rand) (string, string) {
-	switch r.Intn(8) {
+	switch r.Intn(9) {
 	case 0:
 		return "x", "1-char"
+	case 8: // prose up to the header limit: words separated by one to three blanks (typed text has runs of blanks)
+		n := 40 + r.Intn(89)
+		var b strings.Builder
+		for b.Len() < n {
+			for k := 1 + r.Intn(9); k > 0; k-- {
+				b.WriteByte("abcdefghijklmnopqrstuvwxyzABCDEFG0123456789.,:;!?-"[r.Intn(50)])
+			}
+			b.WriteString(strings.Repeat(" ", []int{1, 1, 1, 2, 2, 3}[r.Intn(6)]))
+		}
+		s := strings.TrimSpace(b.String()[:n])
+		return s, fmt.Sprintf("prose-%d", len(s))
 	case 1: // precedence markers
 		p := []string{"//WL2K Z/", "//WL2K O/", "//WL2K P/", "//WL2K R/"}[r.Intn(4)]
 		n := r.Intn(1000)
@@ -226,8 +237,18 @@ func GenMsg(r *rand.Rand, mid, from string, to string) MsgSpec {
 			data = genBytes(r, n, r.Intn(4))
 		}
 		name := fmt.Sprintf("file%d.bin", i)
-		if r.Intn(4) == 0 {
+		switch r.Intn(6) {
+		case 0:
 			name = qEncodeLatin1([]byte{'f', 0xE6, 0xF8, 0xE5, '.', 't', 'x', 't'})
+		case 1: // a long name with blanks and runs of blanks, as desktop users produce them
+			var b strings.Builder
+			for n := 30 + r.Intn(130); b.Len() < n; {
+				for k := 1 + r.Intn(12); k > 0; k-- {
+					b.WriteByte("abcdefghijklmnopqrstuvwxyz0123456789_-()"[r.Intn(40)])
+				}
+				b.WriteString(strings.Repeat(" ", []int{1, 1, 2, 3}[r.Intn(4)]))
+			}
+			name = strings.TrimSpace(b.String()) + fmt.Sprintf(" %d.txt", i)
 		}
 		m.Files = append(m.Files, FileSpec{Name: name, Data: data})
 		fshape += fmt.Sprintf(" file[%d]", len(data))
